@@ -187,20 +187,18 @@ def map_(
         a_task = compose(*tasks)
 
     def then(a_task: Task) -> Promise:
+        def apply_task(values: Sequence[Any]) -> Promise:
+            # Record dataflow: the mapped calls are the upstream of the map_ expression.
+            exprs = [a_task(value) for value in values]
+            sexpr._upstreams = [exprs]
+            return scheduler.evaluate(exprs, parent_job=parent_job)
+
         if isinstance(values, (list, tuple)):
             # Ready to perform parallel map.
-            return scheduler.evaluate(
-                [a_task(value) for value in values],
-                parent_job=parent_job,
-            )
+            return apply_task(values)
         else:
             # Need to evaluate list first.
-            return scheduler.evaluate(values, parent_job=parent_job).then(
-                lambda values: scheduler.evaluate(
-                    [a_task(value) for value in values],
-                    parent_job=parent_job,
-                )
-            )
+            return scheduler.evaluate(values, parent_job=parent_job).then(apply_task)
 
     # Evaluate task first, in case it's an expression.
     return scheduler.evaluate(a_task, parent_job=parent_job).then(then)
